@@ -29,6 +29,13 @@ def cases(draw, tier, force_alias=False):
                 'ite': 1, 'pairwise_xor': 12, 'pairwise_ite': 12}[kind]
     case['n'] = draw(st.integers(1, wmax))
     case['m'] = draw(st.integers(1, wmax if kind != 'plus_one' else 10))
+    long_ = form == 'add' and kind in ('sub', 'sub_cmp', 'plus_one', 'equal', 'pairwise_xor') and draw(st.integers(0, 9)) == 0
+    if long_:
+        # numbers of 33-70 bits over host gates (the table stays that of the host): machine words and mantissas end here
+        case['n'] = draw(st.sampled_from([33, 48, 53, 63, 64, 65, 70]))
+        case['m'] = case['n'] if kind != 'plus_one' else draw(st.sampled_from([case['n'], case['n'] + 1]))
+        if kind == 'sub':
+            case['m'] = draw(st.sampled_from([case['n'], case['n'] - 1, 1, 32]))
     if kind == 'equal':
         case['num'] = draw(st.integers(0, 2 ** (case['n'] + 1)))
     if kind == 'div_mod':
@@ -38,14 +45,21 @@ def cases(draw, tier, force_alias=False):
     if form == 'add':
         case['host'] = draw(arith.hosts(min_inputs=1, max_inputs=6, max_gates=8))
         case['host_route'] = draw(arith.gen.routes(case['host']))
-        case['p1'] = arith.operand_picks(draw, 16, allow_repeat=kind != 'plus_one')
-        case['p2'] = arith.operand_picks(draw, 16, allow_repeat=True)
+        case['p1'] = arith.operand_picks(draw, 72 if long_ else 16, allow_repeat=kind != 'plus_one' or long_)
+        case['p2'] = arith.operand_picks(draw, 72 if long_ else 16, allow_repeat=True)
         case['p3'] = arith.operand_picks(draw, 16, allow_repeat=True)
         # sometimes the first operand list IS the circuit's own live inputs / outputs list (callers write
         # add_x(c, c.outputs, ...)), which the gadget may be growing or reordering while it reads it
         case['hand'] = draw(st.sampled_from(arith.HAND_STYLES))
         case['alias'] = draw(st.sampled_from([None, None, None, 'outputs', 'outputs', 'inputs'] if not force_alias
                                              else ['outputs', 'outputs', 'inputs']))
+        if kind == 'equal' and not force_alias and draw(st.integers(0, 3)) == 0:
+            # a number wider than a double's mantissa (all its bits one and the same host gate, so that the table stays
+            # small) against a constant at the top of the range
+            case['n'] = draw(st.sampled_from([49, 50, 53, 63, 64, 65, 80]))
+            case['p1'] = {'idx': [draw(st.integers(0, 60))] * case['n'], 'repeat': True}
+            case['num'] = 2 ** case['n'] - 1 - draw(st.sampled_from([0, 0, 0, 1, 2 ** (case['n'] - 1)]))
+            case['alias'] = None
     return case
 
 
@@ -304,6 +318,8 @@ def check_arith(case):
             if bool(E[j]) != (A[j] == num and num < (1 << len(a))):
                 raise Violation('wrong_equal', f'{form} width={len(a)} num={num}: operand {A[j]} -> {E[j]}')
         cls.add('const_fits' if num < (1 << len(a)) else 'const_does_not_fit')
+        if len(a) >= 49:
+            cls.add('equal_width>=49')
     elif kind == 'plus_one':
         A, R = val(a), val(ret)
         if len(ret) != m:
